@@ -55,6 +55,30 @@ def uniq_scope(ctx: Ctx) -> List[Ob]:
                 obs.append(ctx.ob("UNIQ-SCOPE", ["C03"], f, f"uniqueness scan inside a loop over several nodes ({f.qualname})", lp, ok,
                                   "" if ok else f"the scan iterates `{norm(lp.iter)}`, which does not depend on the outer loop variable "
                                   f"{sorted(ov)}: only one node's siblings are checked, a conflict at another clone's parent is accepted"))
+        # a scan that leaves out one node by identity (`s is not q`) and compares data_ids looks for a conflicting *sibling of q*:
+        # the list it walks must be q's own sibling list (a helper that takes q but walks `self._parent._children` checks the
+        # wrong parent for every other q)
+        for lp in ast.walk(f.node):
+            if not (isinstance(lp, ast.For) and isinstance(lp.target, ast.Name) and isinstance(lp.iter, ast.Attribute) and lp.iter.attr in ("_children", "children")):
+                continue
+            sv = lp.target.id
+            qs = set()
+            has_id_cmp = False
+            for t in ast.walk(lp):
+                if isinstance(t, ast.Compare) and len(t.ops) == 1:
+                    l_, r_ = t.left, t.comparators[0]
+                    if isinstance(t.ops[0], ast.IsNot) and isinstance(l_, ast.Name) and isinstance(r_, ast.Name) and sv in (l_.id, r_.id):
+                        qs.add(r_.id if l_.id == sv else l_.id)
+                    if isinstance(t.ops[0], (ast.Eq, ast.NotEq)) and any(isinstance(y, ast.Attribute) and y.attr in ("_data_id", "data_id") for y in ast.walk(t)):
+                        has_id_cmp = True
+            if not has_id_cmp or len(qs) != 1:
+                continue
+            q = next(iter(qs))
+            used = {x.id for x in ast.walk(lp.iter) if isinstance(x, ast.Name)}
+            okq = q in used
+            obs.append(ctx.ob("UNIQ-SCOPE", ["C03"], f, f"sibling scan that excludes `{q}` walks `{q}`'s own siblings ({f.qualname})", lp, okq,
+                              "" if okq else f"the scan leaves out `{q}` but walks `{norm(lp.iter)}`: for any `{q}` other than the one that list belongs to, the wrong parent's "
+                              "children are checked and a real conflict below its own parent is accepted"))
         # scans that compare the `parent` property with a raw node
         for n in iter_own(f.node):
             if isinstance(n, ast.Compare) and len(n.ops) == 1 and isinstance(n.ops[0], (ast.Is, ast.IsNot)):
@@ -481,6 +505,30 @@ def cache_inval(ctx: Ctx) -> List[Ob]:
         obs.append(ctx.ob("CACHE-INVAL", props, g, f"{g.qualname} memoises in `{a}`: reset where `{fld}` is written in {M.qualname}", node, False,
                           f"{g.qualname} keeps its result in the new attribute `{a}` and computes it from `{fld}`; {M.qualname} writes `{r}.{fld}` "
                           f"(`{norm(node)[:80]}`) without resetting `{r}.{a}`: the memoised value is stale afterwards"))
+    # derived state that is defined recursively over neighbours (`self._depth = parent._depth + 1`): whoever writes it on one
+    # object must bring the objects that were derived from it (the descendants) up to date as well
+    new_attr = lambda n: n not in KNOWN_ATTRS and not n.startswith("__") and not n.startswith("_zz") and not n.startswith("zz")  # noqa: E731
+    rec_attrs = {}
+    for g in ctx.model.all_funcs():
+        for x in ast.walk(g.node):
+            if isinstance(x, (ast.Assign, ast.AnnAssign)) and x.value is not None:
+                tg = x.targets if isinstance(x, ast.Assign) else [x.target]
+                for t in tg:
+                    if isinstance(t, ast.Attribute) and new_attr(t.attr) and any(
+                            isinstance(y, ast.Attribute) and y.attr == t.attr and isinstance(y.ctx, ast.Load) and norm(y.value) != norm(t.value) for y in ast.walk(x.value)):
+                        rec_attrs.setdefault(t.attr, []).append((g, x))
+    for a, defs in rec_attrs.items():
+        readers = [g for g in ctx.model.all_funcs() if any(isinstance(y, ast.Attribute) and y.attr == a and isinstance(y.ctx, ast.Load) for y in ast.walk(g.node))]
+        props = sorted({p_ for g in readers for p_ in (family_props(g) or [])} | ({"C01", "C13"} if any(g.qualname in ("Node.is_descendant_of", "Node.is_ancestor_of", "Node.get_parent_list") for g in readers) else set())) or ["C10"]
+        for g, x in defs:
+            if g.name == "__init__":
+                continue  # a fresh object has no dependants yet
+            spreads = any(isinstance(lp_, (ast.For, ast.While)) and any(isinstance(y, ast.Attribute) and y.attr == a and isinstance(y.ctx, ast.Store) for y in ast.walk(lp_)) for lp_ in ast.walk(g.node)) \
+                or any(isinstance(c_, ast.Call) and any(k is not g and any(isinstance(y, ast.Attribute) and y.attr == a and isinstance(y.ctx, ast.Store) for y in ast.walk(k.node)) for k, _r in ctx.env.callees(g, c_))
+                       for c_ in ctx.env.calls_in.get(g, []))
+            obs.append(ctx.ob("CACHE-INVAL", props, g, f"`{a}` is derived from the same attribute of a neighbour: {g.qualname} updates the dependants too", x, spreads,
+                              "" if spreads else f"`{norm(x)[:80]}`: `{a}` of an object is computed from `{a}` of another one (its parent), so the objects derived from this one - "
+                              f"its descendants - keep a stale `{a}` when only this object is updated; {', '.join(sorted(r_.qualname for r_ in readers)[:4])} read it"))
     # a memoising decorator on a function that reads object state or the outside world
     for g in ctx.model.all_funcs():
         for d_ in g.node.decorator_list:
@@ -537,4 +585,33 @@ def ret_used(ctx: Ctx) -> List[Ob]:
             props = family_props(f) or (["C14"] if nm == "call_mapper" else ["C08"])
             obs.append(ctx.ob("RET-USED", props, f, f"result of {nm}() is used in {f.qualname}", c, not dropped,
                               "" if not dropped else f"`{norm(c)}` is an expression statement: {RET_USED[nm]}"))
+    return obs
+
+
+# ----------------------------------------------------------------- ENUM-POS
+@rule("ENUM-POS", ["C12", "C05"], floor=1, section="3.6+")
+def enum_pos(ctx: Ctx) -> List[Ob]:
+    """the flat node list names parents by *position*: in the writer's numbering loop (`for i, n in enumerate(walk, 1)`) every round emits exactly one entry - a round that is skipped without a yield (a filter, an early `continue`) shifts every later position while the counter goes on"""
+    uctx = getattr(ctx, "unprojected", ctx)  # structural: new options included
+    obs: List[Ob] = []
+    f = uctx.model.func("Node.to_list_iter")
+    loops = [n for n in iter_own(f.node) if isinstance(n, ast.For) and isinstance(n.iter, ast.Call) and norm(n.iter.func) == "enumerate"
+             and isinstance(n.target, ast.Tuple) and len(n.target.elts) == 2]
+    if len(loops) != 1:
+        return [ctx.tri("ENUM-POS", ["C12", "C05"], f, "every round of the numbering loop emits one entry", None, None, "numbering loop (enumerate) not recognised")]
+    lp = loops[0]
+    cfg = uctx.cfg(f)
+    head = cfg.node_for(lp)
+    inside = {id(x) for x in ast.walk(lp)}
+
+    def is_yield(n) -> bool:
+        return n.ast is not None and id(n.ast) in inside and n.kind == "stmt" and any(isinstance(x, (ast.Yield, ast.YieldFrom)) for x in ast.walk(n.ast))
+
+    if head is None:
+        return [ctx.tri("ENUM-POS", ["C12", "C05"], f, "every round of the numbering loop emits one entry", None, None, "loop head not found")]
+    p = cfg.find_path(head, head, avoid=is_yield, strict=True)
+    ok = p is None
+    obs.append(ctx.ob("ENUM-POS", ["C12", "C05"], f, "every round of the numbering loop emits one entry", lp, ok,
+                      "" if ok else "a round of the loop can end without a yield while the position counter goes on: every parent / clone position after the "
+                      "skipped node is too high (load() raises KeyError or hangs branches below the wrong parent)", describe_path(p) if p else None))
     return obs
